@@ -28,12 +28,12 @@ func init() {
 func genDeterminismFacts(repo string, emit func(name, leanDef string, err error)) {
 	ix, err := loadIndex(repo)
 	if err != nil {
-		for _, n := range []string{"mapRangeSites", "mapRangeUnresolved", "ambientUses", "ambientTelemetry", "oracleCacheWriters", "oracleUnguardedTxWriters", "oracleGuardedTxWriters", "positionDependentUses"} {
+		for _, n := range []string{"mapRangeSites", "mapRangeUnresolved", "ambientUses", "ambientTelemetry", "oracleCacheWriters", "oracleUnguardedTxWriters", "oracleGuardedTxWriters", "positionDependentUses", "mapRangeCarriedState", "mapRangePlainAssignments"} {
 			emit(n, "", err)
 		}
 		return
 	}
-	var sites, unresolved, ambient, ambientTel []string
+	var sites, unresolved, ambient, ambientTel, carried []string
 	seen := map[string]int{}
 	uniq := func(s string) string {
 		seen[s]++
@@ -97,7 +97,9 @@ func genDeterminismFacts(repo string, emit func(name, leanDef string, err error)
 					item := fmt.Sprintf("%s:%s:%s", fn.File.Rel, fn.QName(), srcText(t.X))
 					switch k {
 					case "map":
-						sites = append(sites, uniq(item))
+						site := uniq(item)
+						sites = append(sites, site)
+						carried = append(carried, loopCarriedState(site, t)...)
 					case "?", "ext", "iface", "other":
 						unresolved = append(unresolved, uniq(item))
 					}
@@ -198,6 +200,15 @@ func genDeterminismFacts(repo string, emit func(name, leanDef string, err error)
 	}
 	sort.Strings(positional)
 	emit("positionDependentUses", "/-- in functions that range over a Go map: conditions that single out the first / last index of a slice loop -/\ndef positionDependentUses : List String := "+leanStrListNL(positional), nil)
+	sort.Strings(carried)
+	emit("mapRangeCarriedState", "/-- loop-carried state of every `range` over a map: variables declared OUTSIDE the loop that its body assigns (site|variable|how, how ∈ assign, op<tok>, append, index, field, delete, incdec). An accumulator of a proved commutative shape shows up as op/append/index; a plain `assign` is order sensitive unless justified (first-writer-wins, last-writer-wins). -/\ndef mapRangeCarriedState : List String := "+leanStrListNL(carried), nil)
+	var plain []string
+	for _, c := range carried {
+		if strings.HasSuffix(c, "|assign") {
+			plain = append(plain, c)
+		}
+	}
+	emit("mapRangePlainAssignments", "/-- the order-sensitive kind of loop-carried state: plain assignments to an outer variable inside a map range -/\ndef mapRangePlainAssignments : List String := "+leanStrListNL(plain), nil)
 	sort.Strings(sites)
 	sort.Strings(unresolved)
 	sort.Strings(ambient)
@@ -346,4 +357,164 @@ func condHasNotCheckTx(e ast.Expr) bool {
 		}
 	}
 	return false
+}
+
+// loopCarriedState lists the variables a map-range body assigns although they are declared outside it.
+func loopCarriedState(site string, r *ast.RangeStmt) []string {
+	declared := map[string]bool{}
+	if id, ok := r.Key.(*ast.Ident); ok && r.Tok == token.DEFINE {
+		declared[id.Name] = true
+	}
+	if id, ok := r.Value.(*ast.Ident); ok && r.Tok == token.DEFINE {
+		declared[id.Name] = true
+	}
+	// everything declared anywhere inside the body (flat: a name declared in the body is loop-local)
+	ast.Inspect(r.Body, func(n ast.Node) bool {
+		switch t := n.(type) {
+		case *ast.AssignStmt:
+			if t.Tok == token.DEFINE {
+				for _, l := range t.Lhs {
+					if id, ok := l.(*ast.Ident); ok {
+						declared[id.Name] = true
+					}
+				}
+			}
+		case *ast.ValueSpec:
+			for _, n := range t.Names {
+				declared[n.Name] = true
+			}
+		case *ast.RangeStmt:
+			if t.Tok == token.DEFINE {
+				if id, ok := t.Key.(*ast.Ident); ok {
+					declared[id.Name] = true
+				}
+				if id, ok := t.Value.(*ast.Ident); ok {
+					declared[id.Name] = true
+				}
+			}
+		case *ast.FuncLit:
+			for _, f := range t.Type.Params.List {
+				for _, n := range f.Names {
+					declared[n.Name] = true
+				}
+			}
+		}
+		return true
+	})
+	root := func(e ast.Expr) (string, string) { // root identifier and the access path kind
+		how := ""
+		for {
+			switch t := e.(type) {
+			case *ast.Ident:
+				return t.Name, how
+			case *ast.SelectorExpr:
+				if how == "" {
+					how = "field"
+				}
+				e = t.X
+			case *ast.IndexExpr:
+				if how == "" {
+					how = "index"
+				}
+				e = t.X
+			case *ast.StarExpr:
+				e = t.X
+			case *ast.ParenExpr:
+				e = t.X
+			default:
+				return "", how
+			}
+		}
+	}
+	seen := map[string]bool{}
+	var out []string
+	add := func(v, how string) {
+		if v == "" || v == "_" || declared[v] {
+			return
+		}
+		k := site + "|" + v + "|" + how
+		if !seen[k] {
+			seen[k] = true
+			out = append(out, k)
+		}
+	}
+	ast.Inspect(r.Body, func(n ast.Node) bool {
+		switch t := n.(type) {
+		case *ast.AssignStmt:
+			if t.Tok == token.DEFINE {
+				// `x, err := …` may re-assign an outer x when at least one name is new: keep those that
+				// are not declared in the body by another statement — covered by `declared` (flat).
+				return true
+			}
+			for i, l := range t.Lhs {
+				v, how := root(l)
+				if t.Tok == token.ASSIGN && i < len(t.Rhs) && (how == "" || how == "field") {
+					// x = x.Add(a).Add(b) / x.f = x.f.Add(…): an accumulating sum written as an assignment;
+					// x = x + y: the same with an operator
+					if isAddChainOf(t.Rhs[i], srcText(l)) {
+						add(v, "sum")
+						continue
+					}
+					if be, ok := t.Rhs[i].(*ast.BinaryExpr); ok {
+						left := be.X
+						for {
+							inner, ok := left.(*ast.BinaryExpr)
+							if !ok || inner.Op != be.Op {
+								break
+							}
+							left = inner.X
+						}
+						if srcText(left) == srcText(l) {
+							add(v, "op"+be.Op.String())
+							continue
+						}
+					}
+				}
+				if how == "" {
+					how = "assign"
+					if t.Tok != token.ASSIGN {
+						how = "op" + t.Tok.String()
+					} else if i < len(t.Rhs) {
+						if c, ok := t.Rhs[i].(*ast.CallExpr); ok {
+							if id, ok := c.Fun.(*ast.Ident); ok && id.Name == "append" && len(c.Args) > 0 && srcText(c.Args[0]) == srcText(l) {
+								how = "append"
+							}
+						}
+					}
+				}
+				add(v, how)
+			}
+		case *ast.IncDecStmt:
+			v, how := root(t.X)
+			if how == "" {
+				how = "incdec"
+			}
+			add(v, how)
+		case *ast.CallExpr:
+			if id, ok := t.Fun.(*ast.Ident); ok && id.Name == "delete" && len(t.Args) == 2 {
+				v, _ := root(t.Args[0])
+				add(v, "delete")
+			}
+		}
+		return true
+	})
+	return out
+}
+
+// isAddChainOf: e is base.Add(…)[.Add(…)|.Sub(…)]* with the given base text.
+func isAddChainOf(e ast.Expr, base string) bool {
+	n := 0
+	for {
+		c, ok := e.(*ast.CallExpr)
+		if !ok {
+			break
+		}
+		sel, ok := c.Fun.(*ast.SelectorExpr)
+		if !ok || (sel.Sel.Name != "Add" && sel.Sel.Name != "Sub") {
+			return false
+		}
+		n++
+		e = sel.X
+	}
+	return n > 0 && srcText(e) == base
 }
